@@ -507,7 +507,7 @@ fn random_case(cx: &mut CaseCtx, input: Input, cfg: &crate::gen::GenCfg) -> Case
 
 /// Errors are never silenced: one injected error, `allow(All)` everywhere and `-A All`.
 fn errors_case(cx: &mut CaseCtx, input: Input) -> CaseResult {
-    const ERRORS: [(&str, &str); 8] = [
+    const ERRORS: [(&str, &str); 10] = [
         ("E016", "[[allow(All)]]\nmodule M\n[allow(All)] struct S { [allow(All)] tag(1) a: int32 }\n"),
         ("E033", "[[allow(All)]]\nmodule M\n[allow(All)] struct S { [allow(All)] a: Missing }\n"),
         ("E032", "[[allow(All)]]\nmodule M\n[allow(All)] struct S { [allow(All)] a: S }\n"),
@@ -516,9 +516,12 @@ fn errors_case(cx: &mut CaseCtx, input: Input) -> CaseResult {
         ("E002", "[[allow(All)]]\nmodule M\n[allow(All)] struct {\n"),
         ("E027", "[[allow(All)]]\nmodule M\n[allow(Errors)] struct S {}\n"),
         ("E008", "[[allow(All)]]\nmodule M\n[allow(All)] enum E {}\n"),
+        // a suppression written between the two uses of a repeated attribute
+        ("E026", "module M\n[deprecated] [allow(All)] [deprecated(\"x\")] struct S {}\n"),
+        ("E026", "module M\ninterface I {\n    [oneway] [allow(Deprecated)] [cs::x] [oneway] op()\n}\n"),
     ];
-    let (code, text) = ERRORS[(input.index() % 8) as usize];
-    let cli: Vec<String> = match input.index() / 8 {
+    let (code, text) = ERRORS[(input.index() % ERRORS.len() as u64) as usize];
+    let cli: Vec<String> = match input.index() / ERRORS.len() as u64 {
         0 => vec![],
         1 => vec!["All".into()],
         _ => vec!["all".into(), "Deprecated".into(), code.to_owned().to_lowercase()],
@@ -624,7 +627,7 @@ impl Check for C13 {
         "C13"
     }
     fn rule(&self) -> String {
-        format!("families: matrix = all {MATRIX_TOTAL} cells lint kind (Deprecated, BrokenDocLink, IncorrectDocComment, MalformedDocComment) x site (10 uses of a deprecated type: field, nested type, enumerator field, parameter, single return, return member, alias target, interface base, enum underlying, dictionary value; 9 commented entities) x placement (none, command line, command line in another case, file attribute, outer enclosing definition, inner enclosing definition, the element itself, unrelated sibling, another file's attribute) x argument (that lint, All, another lint, that + another, another + All), in-process; errors = 8 error kinds x allow(All) everywhere x -A lists; binary = command-line spellings, DuplicateFile, exit status, request identity; random = proptest choice sequences -> programs with deprecated definitions and their uses, doc comments and up to 3 planted comment defects, plus 1..4 suppressions (command line, file attribute, any definition or member; one or two names each) in free layouts. Oracle: the statement's predicate gives the expected level (in the random family the element a lint concerns is found independently of the implementation's scope strings: the innermost element whose text, doc comment and attributes included, contains the lint's location as recorded by the printer); with/without pairs differ in nothing but that level and the added attribute. Non-trivial = a suppression is present (matrix) / at least one located lint judged (random)")
+        format!("families: matrix = all {MATRIX_TOTAL} cells lint kind (Deprecated, BrokenDocLink, IncorrectDocComment, MalformedDocComment) x site (10 uses of a deprecated type: field, nested type, enumerator field, parameter, single return, return member, alias target, interface base, enum underlying, dictionary value; 9 commented entities) x placement (none, command line, command line in another case, file attribute, outer enclosing definition, inner enclosing definition, the element itself, unrelated sibling, another file's attribute) x argument (that lint, All, another lint, that + another, another + All), in-process; errors = 10 error templates (8 kinds with allow(All) everywhere, a repeated attribute with an allow written between its two uses) x -A lists; binary = command-line spellings, DuplicateFile, exit status, request identity; random = proptest choice sequences -> programs with deprecated definitions and their uses, doc comments and up to 3 planted comment defects, plus 1..4 suppressions (command line, file attribute, any definition or member; one or two names each) in free layouts. Oracle: the statement's predicate gives the expected level (in the random family the element a lint concerns is found independently of the implementation's scope strings: the innermost element whose text, doc comment and attributes included, contains the lint's location as recorded by the printer); with/without pairs differ in nothing but that level and the added attribute. Non-trivial = a suppression is present (matrix) / at least one located lint judged (random)")
     }
     fn assumptions(&self) -> Vec<String> {
         vec![
@@ -673,7 +676,7 @@ impl Check for C13 {
         vec![
             Family::bytes("random", 600, tier.pick(1_500, 40_000), move |cx, i| random_case(cx, i, &cfg)),
             Family::enumerate("matrix", MATRIX_TOTAL, 1, matrix_case),
-            Family::enumerate("errors", 24, 1, errors_case),
+            Family::enumerate("errors", 30, 1, errors_case),
             Family::enumerate("binary", 36, 1, binary_case),
         ]
     }
